@@ -239,6 +239,39 @@ Section Main.
       + apply IH. cbn [length] in Hm. lia.
   Qed.
 
+  (* processOrphans only removes orphans *)
+  Lemma add_transaction_orphans_sub st t h e :
+    lookup (orphans (add_transaction st t)) h = Some e -> lookup (orphans st) h = Some e.
+  Proof.
+    rewrite add_transaction_eq. unfold plain_add; cbn [orphans].
+    rewrite remove_orphan_orphans. destruct (N.eqb (tid t) h); [discriminate|auto].
+  Qed.
+
+  Lemma po_loop_orphans_sub c : forall fuel st wl st',
+    po_loop ordP true c fuel st wl = Some st' ->
+    forall h e, lookup (orphans st') h = Some e -> lookup (orphans st) h = Some e.
+  Proof.
+    induction fuel as [|f IH]; intros st wl st' E h e He; destruct wl as [|x wl']; cbn in E.
+    - inversion E; subst; exact He.
+    - discriminate.
+    - inversion E; subst; exact He.
+    - match type of E with context [if ?b then _ else _] => destruct b end.
+      + apply (IH _ _ _ E) in He. change (add_transaction_gen true) with add_transaction in He.
+        apply add_transaction_orphans_sub in He. rewrite remove_orphan_orphans in He.
+        destruct (N.eqb (tid x) h); [discriminate|]. exact He.
+      + exact (IH _ _ _ E h e He).
+  Qed.
+
+  Lemma orphans_shrink_po c st t st' :
+    process_orphans_gen ordP true c (add_transaction_gen true st t) t = Some st' ->
+    forall h e, lookup (orphans st') h = Some e -> lookup (orphans st) h = Some e.
+  Proof.
+    unfold process_orphans_gen. intros E h e He.
+    apply (po_loop_orphans_sub _ _ _ _ _ E) in He. unfold with_obp in He; cbn [orphans] in He.
+    change (add_transaction_gen true) with add_transaction in He.
+    apply add_transaction_orphans_sub in He. exact He.
+  Qed.
+
   (* ---- ValidateTx / processTransaction -------------------------------------- *)
   Lemma add_orphan_avail c st now t req o : avail c (add_orphan st now t req) o = avail c st o.
   Proof. reflexivity. Qed.
